@@ -44,11 +44,11 @@ void harness(void)
 #if defined(STRV_free)
   gc.cfg_nofault = true;
 #endif
-  int faults0 = g.faults;
+  int faults0 = g.e.faults;
   char **r = strv_concat(a, b);
 
   V_ASSERT("C04+C05/strv_concat.null_only_when_allocation_failed",
-           IMPLIES(r == NULL, g.faults > faults0 && g.err == ENOMEM));
+           IMPLIES(r == NULL, g.e.faults > faults0 && g.e.err == ENOMEM));
   if (r != NULL) {
     bool ok = true;
     for (size_t i = 0; i < VERIF_NVEC; i++) {
